@@ -601,7 +601,6 @@ pub fn run(seed: u64, tier: &str, out: &Path, extra: &[(String, String)]) -> std
     let shape = arm_refreshes();
     let refresh = shape && !extra.iter().any(|(k, v)| k == "refresh" && v == "0");
     REFRESH.store(refresh, Ordering::Relaxed);
-    let with_f8 = extra.iter().any(|(k, v)| k == "f8" && v == "1");
     let rt = tokio::runtime::Builder::new_current_thread().enable_all().build()?;
     let mut rng = Rng::new(seed ^ 0xC08);
     let mut hist: std::collections::BTreeMap<&'static str, u64> = Default::default();
@@ -621,7 +620,8 @@ pub fn run(seed: u64, tier: &str, out: &Path, extra: &[(String, String)]) -> std
         let w = rt.block_on(sc_backoff(&mut r, n));
         push(&mut run, "backoff_ladder", w);
     }
-    if with_f8 {
+    {
+        // F8 witness (pre-registration data + NAK on a re-created link, then REG3): regression case
         let mut r = rng.fork(3);
         let w = rt.block_on(sc_prereg_nak(&mut r));
         push(&mut run, "prereg_nak", w);
